@@ -82,6 +82,9 @@ pub enum Step {
     Deliver { to: u16, pick: u16, count: u8 },
     /// Deliver everything to everybody (creates sequential stretches).
     Sync,
+    /// `by` adds a peer which was added before by somebody else, is not (yet) in `by`'s view and
+    /// was never removed: two members add the same peer concurrently, the peer is welcomed twice.
+    AddAgain { by: u16, who: u16 },
 }
 
 #[derive(Clone, Debug, Serialize, Deserialize)]
@@ -105,6 +108,7 @@ fn step_strategy() -> impl Strategy<Value = Step> {
         4 => any::<u16>().prop_map(|by| Step::Send { by }),
         7 => (any::<u16>(), any::<u16>(), 1u8..4).prop_map(|(to, pick, count)| Step::Deliver { to, pick, count }),
         2 => Just(Step::Sync),
+        2 => (any::<u16>(), any::<u16>()).prop_map(|(by, who)| Step::AddAgain { by, who }),
     ]
 }
 
@@ -182,7 +186,7 @@ struct World {
     outputs: Vec<BTreeMap<Vec<u8>, u32>>,
     /// Peers that were an initial member or target of an add (ids are never re-added).
     ever_member: BTreeSet<usize>,
-    add_of: BTreeMap<usize, usize>,
+    add_of: BTreeMap<usize, Vec<usize>>,
     secret_gen: BTreeMap<GroupSecretId, usize>,
     sends: u32,
     labels: BTreeSet<&'static str>,
@@ -299,31 +303,48 @@ impl World {
         (0..self.n).filter(|p| self.active(*p)).collect()
     }
 
-    /// Signature of K-C35 for "peer r lacks secret K".
+    /// Signature of K-C35 for "peer r lacks secret K": `r` is not the generator, no add of `r` is in
+    /// the generator's past (r was no direct recipient), and *every* welcome `r` got could not
+    /// carry `K`: the add is concurrent with the generation, or the generation precedes it and the
+    /// adder itself lacked `K` (by the same rule, judged over the adds in that add's past). With a
+    /// single add per peer this is the chain rule; with several adds (welcome bundles are merged)
+    /// one welcome carrying `K` is enough for `r` to hold it.
     fn concurrent_with_add(&self, r: usize, secret: &GroupSecretId) -> bool {
         let Some(&g) = self.secret_gen.get(secret) else {
             return false;
         };
-        let mut r = r;
-        loop {
-            if self.msgs[g].sender == r {
-                return false;
+        self.lacks_by_welcome(r, g, None)
+    }
+
+    fn lacks_by_welcome(&self, r: usize, g: usize, horizon: Option<usize>) -> bool {
+        if self.msgs[g].sender == r {
+            return false;
+        }
+        let all: Vec<usize> = self.add_of.get(&r).cloned().unwrap_or_default();
+        let adds: Vec<usize> = match horizon {
+            // What the adder had been welcomed with when it published add `h`.
+            Some(h) => all.iter().cloned().filter(|a| self.msgs[h].past.contains(a)).collect(),
+            // The welcomes `r` has been handed so far (all of them at quiescence).
+            None => {
+                let got: Vec<usize> = all.iter().cloned().filter(|a| self.delivered[r].contains(a)).collect();
+                if got.is_empty() { all.clone() } else { got }
             }
-            let Some(&a) = self.add_of.get(&r) else {
-                // Initial member: was in the creator's view from the start.
-                return false;
-            };
-            if self.msgs[g].past.contains(&a) {
+        };
+        if all.is_empty() {
+            // Initial member: was in the creator's view from the start.
+            return false;
+        }
+        adds.iter().all(|a| {
+            if self.msgs[g].past.contains(a) {
                 // add(r) happened before the generation: r was a direct recipient.
                 return false;
             }
-            if self.msgs[a].past.contains(&g) {
-                // Generation happened before add(r): r depends on the adder's bundle.
-                r = self.msgs[a].sender;
-                continue;
+            if self.msgs[*a].past.contains(&g) {
+                // Generation happened before this add(r): r depends on this adder's bundle.
+                return self.lacks_by_welcome(self.msgs[*a].sender, g, Some(*a));
             }
-            return true; // concurrent
-        }
+            true // concurrent
+        })
     }
 
     /// Signature of K-C35b for "the recipient set of secret K was wrong".
@@ -340,13 +361,18 @@ impl World {
         } else {
             // The bundle r got at its welcome came from an adder lacking the secret for one of
             // the reasons above.
-            let mut r = r;
-            while let Some(&a) = self.add_of.get(&r) {
-                let adder = self.msgs[a].sender;
-                if self.concurrent_with_add(adder, secret) {
-                    return Some(KEY);
+            let mut todo = vec![r];
+            let mut seen = BTreeSet::new();
+            while let Some(r) = todo.pop() {
+                for a in self.add_of.get(&r).cloned().unwrap_or_default() {
+                    let adder = self.msgs[a].sender;
+                    if self.concurrent_with_add(adder, secret) {
+                        return Some(KEY);
+                    }
+                    if seen.insert(adder) {
+                        todo.push(adder);
+                    }
                 }
-                r = adder;
             }
             None
         }
@@ -367,7 +393,7 @@ impl World {
             self.secret_gen.insert(id, index);
         }
         if let Kind::Add { who } = &kind {
-            self.add_of.insert(*who, index);
+            self.add_of.entry(*who).or_default().push(index);
         }
         self.msgs.push(Published {
             msg,
@@ -532,6 +558,25 @@ impl World {
                     Group::add(y, who, rng).map_err(|e| e.to_string())
                 })
             }
+            Step::AddAgain { by, who } => {
+                let actives = self.actives();
+                if actives.is_empty() {
+                    return Ok(());
+                }
+                let by = actives[idx(*by, actives.len())];
+                let view = self.view(by);
+                let again: Vec<usize> = (0..self.n)
+                    .filter(|p| *p != by && self.add_of.contains_key(p) && !self.ever_removed(*p) && !view.contains(p))
+                    .collect();
+                if again.is_empty() {
+                    return Ok(());
+                }
+                let who = again[idx(*who, again.len())];
+                self.labels.insert("peer_added_twice_concurrently");
+                self.act(by, "add", Kind::Add { who }, |y, rng| {
+                    Group::add(y, who, rng).map_err(|e| e.to_string())
+                })
+            }
             Step::Remove { by, who } => {
                 let actives = self.actives();
                 if actives.is_empty() {
@@ -543,6 +588,12 @@ impl World {
                     return Ok(());
                 }
                 let who = view[idx(*who, view.len())];
+                if self.add_of.get(&who).map_or(false, |a| a.len() > 1) {
+                    // A peer added twice is never removed: with a removal concurrent to one of its
+                    // adds the reference membership would depend on the delivery order.
+                    self.labels.insert("remove_of_twice_added_peer_skipped");
+                    return Ok(());
+                }
                 if who == by {
                     self.labels.insert("self_remove");
                 }
@@ -852,7 +903,7 @@ fn run_case(case: &Case, open: Open) -> Result<Summary, String> {
             .iter()
             .any(|b| a < b && !w.msgs[*b].past.contains(a) && !w.msgs[*a].past.contains(b))
     });
-    let add_vs_gen = w.add_of.values().any(|a| {
+    let add_vs_gen = w.add_of.values().flatten().any(|a| {
         w.secret_gen
             .values()
             .any(|g| g != a && !w.msgs[*g].past.contains(a) && !w.msgs[*a].past.contains(g))
